@@ -82,9 +82,32 @@ func (c *checker) lockAmbiguous(a mm.Addr) bool {
 	return false
 }
 
+// unspecified: a live lock and a tombstone apply together (reachable only by
+// marking and reviving the LOCK object itself): the statement lets a lock
+// override expiry and garbage marks only, the ResolveECPart comment says it
+// also ignores tombstones. Views of such an address are not compared.
+func (c *checker) unspecified(a mm.Addr) bool {
+	m, e := c.w.M, c.w.Epoch
+	q := m.Quirks
+	strict := m.Reasons(a, e, false)
+	strictI := m.Reasons(a, e, true)
+	m.Quirks.LockOverridesTombstone = !q.LockOverridesTombstone
+	other := m.Reasons(a, e, false)
+	otherI := m.Reasons(a, e, true)
+	m.Quirks = q
+	return strict != other || strictI != otherI
+}
+
 func (c *checker) checkAddr(a mm.Addr) {
 	m, e := c.w.M, c.w.Epoch
 	v := m.Status(a, e)
+	if c.unspecified(a) {
+		c.rec.Label("skip-lock-vs-tombstone-unspecified")
+		if lk, err := c.db.IsLocked(a.OID()); err != nil || lk != v.Locked {
+			c.fail("IsLocked(%s) = %v/%v, model: live lock = %v", a, lk, err, v.Locked)
+		}
+		return
+	}
 	addr := a.OID()
 	if v.Reasons != 0 {
 		c.nonAvailSeen = true
@@ -253,11 +276,17 @@ func (c *checker) checkContainer(ci int) {
 		}
 		var want []int
 		for _, id := range avail {
-			if keep(m.Get(mm.Addr{C: ci, I: id})) {
+			if keep(m.Get(mm.Addr{C: ci, I: id})) && !c.unspecified(mm.Addr{C: ci, I: id}) {
 				want = append(want, id)
 			}
 		}
-		if got := idsOf(res, ci); !equal(got, want) {
+		var got []int
+		for _, id := range idsOf(res, ci) {
+			if id < 0 || !c.unspecified(mm.Addr{C: ci, I: id}) {
+				got = append(got, id)
+			}
+		}
+		if !equal(got, want) {
 			c.fail("Search[%s](c%d) = %v, model available set %v", name, ci, got, want)
 		}
 	}
